@@ -385,6 +385,33 @@ let handle_cr = function
         (String.concat "," (List.map hex_of_bytes o.o_opened)) (int_of_nat o.o_stdin_reads)
   | _ -> failwith "bad CR line"
 
+(* K <id> <datahex> <events>: the YAML chunker over a libyaml event stream
+   events: comma list of s | c | C | e<end>:<pulled> | E | o | x ; "P" = the parser panicked (no case) *)
+let handle_k = function
+  | [ id; data; evs ] ->
+      let data = bytes_of_hex data in
+      let parse_ev s =
+        match s.[0] with
+        | 's' -> YDocStart | 'c' -> YScalar | 'C' -> YCollStart | 'E' -> YStreamEnd | 'o' -> YOther | 'x' -> YErr
+        | 'e' -> (
+            match String.split_on_char ':' (String.sub s 1 (String.length s - 1)) with
+            | [ a; b ] -> YDocEnd (nat_of_int (int_of_string a), nat_of_int (int_of_string b))
+            | _ -> failwith "bad e")
+        | _ -> failwith "bad event"
+      in
+      if evs = "P" then id ^ " panic"
+      else
+        let items = chunker data (List.map parse_ev (split_on ',' evs)) in
+        let show = function
+          | IDoc c -> Printf.sprintf "d%s:%d" (hex_of_bytes c.c_content) (if c.c_coll then 1 else 0)
+          | IErr -> "err"
+          | IPanic _ -> "panic"
+        in
+        let has_panic = List.exists (function IPanic _ -> true | _ -> false) items in
+        if has_panic then id ^ " panic"
+        else Printf.sprintf "%s %s" id (if items = [] then "-" else String.concat "," (List.map show items))
+  | _ -> failwith "bad K line"
+
 (* DT <id> <hex> <json 0|1> <yaml 0|1> <toml 0|1>: detect.rs over a slice, the MessagePack trial from the model,
    the other three trials answering as given *)
 let handle_dt = function
@@ -412,6 +439,7 @@ let () =
           | "MS" :: rest -> handle_ms rest
           | "FT" :: rest -> handle_ft rest
           | "FW" :: rest -> handle_fw rest
+          | "K" :: rest -> handle_k rest
           | "DT" :: rest -> handle_dt rest
           | "CP" :: rest -> handle_cp rest
           | "CR" :: rest -> handle_cr rest
